@@ -54,6 +54,7 @@ static struct io_event OWNER_EV; static cJSON *pending_reply; static int owner_r
 #define BATCH_KIND 0          /* 0: the owner replies; 1: the owner's connection ends; 2: the caller's connection ends */
 #endif
 static struct eventloop_epoll EPOLL;
+static int own_removed;
 static enum eventloop_return owner_read(struct io_event *ev)
 {
 	(void)ev; owner_reads++;
@@ -73,13 +74,18 @@ static enum eventloop_return owner_read(struct io_event *ev)
 #if OWN_EVENT == 2
 	EPOLL.loop.remove(EPOLL.loop.this_ptr, ev);
 #endif
-#if OWN_EVENT
+#if OWN_EVENT == 3
+	/* (the error path of the buffered socket's read function: the connection is torn down inside it, the function itself
+	   reports EL_CONTINUE_LOOP; the loop must notice that the registration is gone before it looks at EPOLLOUT) */
+	EPOLL.loop.remove(EPOLL.loop.this_ptr, ev); own_removed = 1;
+	return EL_CONTINUE_LOOP;
+#elif OWN_EVENT
 	return EL_EVENT_REMOVED;
 #endif
 #endif
 	return EL_CONTINUE_LOOP;
 }
-static enum eventloop_return owner_write(struct io_event *ev) { (void)ev; return EL_CONTINUE_LOOP; }
+static enum eventloop_return owner_write(struct io_event *ev) { (void)ev; CHECK(!own_removed, "C05.no_callback_through_a_removed_registration"); return EL_CONTINUE_LOOP; }
 
 void harness_batch(void)
 {
@@ -114,7 +120,7 @@ void harness_batch(void)
 	/* one harvested batch: the owner's socket is readable (reply) AND the request's timer expired */
 	struct epoll_event events[2];
 #if REPLY_FIRST
-	events[0].events = EPOLLIN; events[0].data.ptr = &OWNER_EV;
+	events[0].events = EPOLLIN | (OWN_EVENT == 3 ? EPOLLOUT : 0); events[0].data.ptr = &OWNER_EV;
 	events[1].events = EPOLLIN; events[1].data.ptr = timer_ev;
 #else
 	events[0].events = EPOLLIN; events[0].data.ptr = timer_ev;
